@@ -642,12 +642,12 @@ package decoder
 
 // ---------------------------------------------------------------- stream refill core (C09, C06)
 // Window invariant of a Stream, as far as memory safety and the consumed prefix need it: the cursor
-// is inside the buffer, the last byte of the buffer is the NUL sentinel (every scanner stops there),
-// and the recorded buffer size is not smaller than the buffer (otherwise doubling would truncate the
-// window). Not part of it: "cursor <= length" and "everything from length on is NUL" - readBuf
+// is inside the buffer and the last byte of the buffer is the NUL sentinel (every scanner stops there).
+// The recorded buffer size may lag behind the buffer (stringBytes grows the window when it replaces
+// invalid bytes); readBuf must therefore never shrink the window when it doubles. Not part of it: "cursor <= length" and "everything from length on is NUL" - readBuf
 // shortens the window at the first NUL byte of the data, so neither holds for inputs that contain
 // NUL bytes (outside the claim; see the bounded stand-in).
-//@ spec wfStream(s) := s != nil && 0 <= s.cursor && s.cursor < len(s.buf) && 0 <= s.length && s.length < len(s.buf) && len(s.buf) <= cap(s.buf) && len(s.buf) <= s.bufSize && s.bufSize <= 4611686018427387903 && s.buf[len(s.buf) - 1] == 0
+//@ spec wfStream(s) := s != nil && 0 <= s.cursor && s.cursor < len(s.buf) && 0 <= s.length && s.length < len(s.buf) && len(s.buf) <= cap(s.buf) && len(s.buf) <= 4611686018427387903 && 0 <= s.bufSize && s.bufSize <= 4611686018427387903 && s.buf[len(s.buf) - 1] == 0
 
 //@ func io.Reader.Read(r, p) (n, err)
 //@   props C09 C06
@@ -665,7 +665,7 @@ package decoder
 //@   props C09 C06
 //@   requires wfStream(s)
 //@   ensures s.cursor == old(s.cursor) && s.cursor <= s.length && s.length < len(s.buf)
-//@   ensures len(s.buf) <= s.bufSize && s.bufSize <= 4611686018427387903 && len(s.buf) >= old(len(s.buf)) && len(s.buf) <= cap(s.buf)
+//@   ensures 0 <= s.bufSize && s.bufSize <= 4611686018427387903 && len(s.buf) >= old(len(s.buf)) && len(s.buf) <= cap(s.buf) && len(s.buf) <= 4611686018427387903
 //@   ensures ptrOf(buf) == ptrOf(s.buf) + s.length && len(buf) == len(s.buf) - s.length && len(buf) >= 1 && len(buf) <= cap(buf)
 //@   ensures forall k :: 0 <= k && k < s.length ==> s.buf[k] == old(s.buf[k])
 //@   ensures s.buf[len(s.buf) - 1] == 0
